@@ -3050,6 +3050,14 @@ class Choice(Set):
         if self._currentIdx is not None:
             yield self.componentType[self._currentIdx].getName(), self[self._currentIdx]
 
+    def clear(self):
+        self._currentIdx = None
+        return Set.clear(self)
+
+    def reset(self):
+        self._currentIdx = None
+        return Set.reset(self)
+
     def checkConsistency(self):
         if self._currentIdx is None:
             raise error.PyAsn1Error('Component not chosen')
